@@ -22,7 +22,7 @@ RULE = ('source port trees to depth 3 over names {a, ab, abc, b, x} (so names ar
         'selects a strict subset')
 RULE += ('; also: empty namespaces, a reused options dictionary, targets below existing namespaces, a second narrower exposure of the same class, a destination port under the name of an excluded source port')
 ASSUMPTIONS = ['an empty include list is treated by the code as "no filter" and is outside the quantifier', 'reference model written from the property statement']
-REQUIRED = ['later_exposures', 'only_destination_has_own_namespace_class', 'target_had_properties_of_its_own', 'other_separator', 'deep_targets', 'path_lookups', 'deep_path_lookups', 'exposes', 'include_cases', 'exclude_cases', 'prefix_sibling_cases', 'nested_rule_cases', 'attr_checks', 'mutation_probes', 'both_rejected',
+REQUIRED = ['source_namespaces_made_by_lookup', 'rejected_with_ports_of_its_own', 'later_exposures', 'only_destination_has_own_namespace_class', 'target_had_properties_of_its_own', 'other_separator', 'deep_targets', 'path_lookups', 'deep_path_lookups', 'exposes', 'include_cases', 'exclude_cases', 'prefix_sibling_cases', 'nested_rule_cases', 'attr_checks', 'mutation_probes', 'both_rejected',
             'namespace_option_cases', 'preexisting_kept', 'options_reused', 're_exposures', 'own_port_under_excluded_name', 'renamed_source_ports']
 BOUNDS = {'quick': '40 trees x all single rules and pairs', 'thorough': '600 trees, rule sets up to 3'}
 NAMES = ['a', 'ab', 'abc', 'b', 'x']
@@ -148,6 +148,9 @@ class TaggedOutputPort(OutputPort):
         self.tags = ['declared']
 
 
+DYNAMICALLY_MADE = []
+
+
 def build(ns, tree, kind, renamed=False):
     for k, (name, d) in enumerate(tree.items()):
         # (renamed: the first entry of every level was declared under another name and moved -- ``ns[new] = ns.pop(old)`` -- so the
@@ -155,6 +158,14 @@ def build(ns, tree, kind, renamed=False):
         made = 'was_' + name if renamed and k == 0 else name
         if d[0] == 'port':
             ns[made] = (TaggedInputPort if kind == 'in' else TaggedOutputPort)(made, **_kw(d[1]))
+        elif ns.dynamic and made == 'ab':
+            # (a namespace below a dynamic one that came into being through a look-up that may create -- what emitting a nested output
+            # does to the specification of a class -- and was given its settings afterwards: a namespace of the source like any other)
+            sub = ns.get_port(made, create_dynamically=True)
+            DYNAMICALLY_MADE.append(made)
+            for key, value in _kw(d[1]).items():
+                setattr(sub, key, value)
+            build(sub, d[2], kind, renamed)
         else:
             sub = type(ns)(made, **_kw(d[1])) if isinstance(ns, (SlashNamespace, OwnNamespace)) else PortNamespace(made, **_kw(d[1]))
             ns[made] = sub
@@ -199,6 +210,9 @@ def gen_cases(tier, seed):
         # ... also when one of the two rule sets is given but empty (a computed rule set that came out empty)
         for variant in ('empty-include', 'empty-exclude'):
             yield {'kind': kind, 'tree': tree, 'top': top_attrs, 'mode': 'both', 'rules': [allp[0]], 'target': None, 'options': {}, 'pre': False, 'both_variant': variant}
+        # ... and into a target below a namespace of the destination that holds ports of its own: a rejected call leaves those alone
+        for variant, target in (('both', 'keep.sub'), ('empty-exclude', 'keep.sub'), ('empty-exclude', 'keep.sub.deeper'), ('empty-include', 'keep'), ('empty-exclude', 'fresh.sub')):
+            yield {'kind': kind, 'tree': tree, 'top': top_attrs, 'mode': 'both', 'rules': [allp[0]], 'target': target, 'options': {}, 'pre': True, 'both_variant': variant}
 
 
 # --- reference model -------------------------------------------------------------------------
@@ -314,7 +328,9 @@ def run_case(case):
     src_root = src_spec.inputs if kind == 'in' else src_spec.outputs
     for k, v in _kw(case['top']).items():
         setattr(src_root, k, v)
+    del DYNAMICALLY_MADE[:]
     build(src_root, case['tree'], kind, renamed=bool(case.get('renamed')))
+    made_dynamically = len(DYNAMICALLY_MADE)
     src_cls = type('Src', (_Src,), {'_spec': src_spec})
     dest = SlashSpec() if slash else (OwnNamespaceSpec() if case.get('slash') == 'dest' else ProcessSpec())
     droot = dest.inputs if kind == 'in' else dest.outputs
@@ -341,7 +357,7 @@ def run_case(case):
     pre_desc = describe(droot)
     expose = dest.expose_inputs if kind == 'in' else dest.expose_outputs
     obs = {'exposes': 1, 'include_cases': 0, 'exclude_cases': 0, 'prefix_sibling_cases': 0, 'nested_rule_cases': 0, 'attr_checks': 0,
-           'renamed_source_ports': int(bool(case.get('renamed'))), 'target_had_properties_of_its_own': obs_pre_root, 'other_separator': int(slash), 'only_destination_has_own_namespace_class': int(case.get('slash') == 'dest'), 'deep_targets': int(str(case.get('target') or '').count('.') >= 2), 'mutation_probes': 0, 'both_rejected': 0, 'namespace_option_cases': 0, 'preexisting_kept': 0, 'options_reused': 0}
+           'source_namespaces_made_by_lookup': made_dynamically, 'renamed_source_ports': int(bool(case.get('renamed'))), 'target_had_properties_of_its_own': obs_pre_root, 'other_separator': int(slash), 'only_destination_has_own_namespace_class': int(case.get('slash') == 'dest'), 'deep_targets': int(str(case.get('target') or '').count('.') >= 2), 'mutation_probes': 0, 'both_rejected': 0, 'namespace_option_cases': 0, 'preexisting_kept': 0, 'options_reused': 0}
     viol = []
     mode, rules = case['mode'], case['rules']
     shape = '%s:%s' % (mode, kind)
@@ -350,10 +366,25 @@ def run_case(case):
         inc = [] if variant == 'empty-include' else [P(r) for r in rules]
         exc = () if variant == 'empty-exclude' else [P(r) for r in rules]
         try:
-            expose(src_cls, include=inc, exclude=exc)
+            if case['target']:
+                expose(src_cls, include=inc, exclude=exc, namespace=P(case['target']))
+            else:
+                expose(src_cls, include=inc, exclude=exc)
             viol.append(V('both-accepted', 'both-accepted:%s:%s' % (kind, variant), 'include=%r together with exclude=%r was accepted' % (inc, exc)))
         except ValueError:
             obs['both_rejected'] = 1
+        if case['pre']:
+            # the ports the destination had are where they were (what a rejected call may leave behind of its target is not judged)
+            now = describe(droot)
+            obs['rejected_with_ports_of_its_own'] = 1
+            for name in ('pre_existing', 'keep', 'emp'):
+                a, b = now.get(name), pre_desc.get(name)
+                if name == 'keep' and a is not None and (case['target'] or '').startswith('keep'):
+                    a = [a[0], a[1], {k: v for k, v in a[2].items() if k != 'sub'}]
+                if a != b:
+                    viol.append(V('preexisting-changed', 'preexisting-changed:rejected-call', 'after the rejected exposure into %s the destination\'s own %s is %s' % (
+                        case['target'], name, 'gone' if a is None else 'changed')))
+                    break
         return {'viol': viol, 'obs': obs, 'key': case, 'nontrivial': True, 'sample': {'mode': 'both', 'rules': rules}}
     opts = _kw(case['options'])
     kwargs = {mode: [P(r) for r in rules], 'namespace': P(case['target'])}
